@@ -906,6 +906,59 @@ func c05Gen(t *rapid.T) c05Case {
 		idx := func(label string) int32 {
 			return int32(rapid.SampledFrom([]int{-1, 0, 0, 1, 1, 2, 3, 4, 5, n - 1, n, n + 1, 1 << 20}).Draw(t, label))
 		}
+		if rapid.IntRange(0, 2).Draw(t, "constructed") == 0 {
+			// A VALID base tree (root + literals/arguments forming a DAG, valid root
+			// index) with one to three targeted corruptions: the guards a decoder
+			// puts in front of graph assembly are only exercised by graphs that are
+			// valid except for the one thing the guard is about.
+			k := rapid.IntRange(1, 5).Draw(t, "baseNodes")
+			base := make([]c05WireNode, k+1)
+			base[0] = c05WireNode{Type: 0, Redirect: -1}
+			for i := 1; i <= k; i++ {
+				base[i] = c05WireNode{Type: byte(rapid.SampledFrom([]int{1, 1, 2}).Draw(t, "baseType")), Redirect: -1,
+					Name: rapid.SampledFrom([]string{"a", "b", "c", "a", "cmd"}).Draw(t, "baseName")}
+				if rapid.Bool().Draw(t, "baseExec") {
+					base[i].Flags |= 0x04
+				}
+				parent := rapid.IntRange(0, i-1).Draw(t, "baseParent")
+				base[parent].Children = append(base[parent].Children, int32(i))
+			}
+			for c, m := 0, rapid.IntRange(1, 3).Draw(t, "corruptions"); c < m; c++ {
+				x := rapid.IntRange(0, k).Draw(t, "victim")
+				y := rapid.IntRange(0, k).Draw(t, "other")
+				switch rapid.IntRange(0, 6).Draw(t, "corruption") {
+				case 0: // the node becomes its own child (once or twice)
+					base[x].Children = append(base[x].Children, int32(x))
+					if rapid.Bool().Draw(t, "twice") {
+						base[x].Children = append(base[x].Children, int32(x))
+					}
+				case 1: // an earlier node (possibly an ancestor) becomes a child: cycle through the tree
+					base[x].Children = append(base[x].Children, int32(y))
+				case 2: // a child is listed twice (forces a merge in AddChild)
+					if len(base[x].Children) > 0 {
+						base[x].Children = append(base[x].Children, base[x].Children[0])
+					}
+				case 3: // redirect flag with a buildable target (the root / any node)
+					if x != 0 {
+						base[x].Flags |= 0x08
+						base[x].Redirect = int32(rapid.SampledFrom([]int{0, 0, y}).Draw(t, "redirectTarget"))
+					}
+				case 4: // same-named sibling pointing back into the tree
+					base[y].Name = base[x].Name
+				case 5: // redirecting node that also keeps children forming a cycle
+					if x != 0 {
+						base[x].Flags |= 0x08
+						base[x].Redirect = 0
+						base[x].Children = append(base[x].Children, int32(x), int32(x))
+					}
+				default: // two nodes that are each other's children
+					base[x].Children = append(base[x].Children, int32(y))
+					base[y].Children = append(base[y].Children, int32(x))
+				}
+			}
+			c.Head = c05EncodeGraph(base, 0, proto.Protocol(c.Proto), 0)
+			return c
+		}
 		nodes := make([]c05WireNode, n)
 		for i := range nodes {
 			nd := &nodes[i]
